@@ -133,7 +133,7 @@ def run(repo, tier) -> Result:
     else:
         res.fail("R-ORDER", finding("C14", "R-ORDER", hrc, hrc.node, "Hexital.recalculate must be purge(name); calculate(name)", construct="Hexital.recalculate: " + " -> ".join(seq)))
     check_calculate_driver("C14", res, repo, want=("R-SKIP", "R-SWEEP", "R-ROUND", "R-SUBS"))
-    check_resume("C14", res, repo.method("hexital.core.indicator", "Indicator", "_find_calc_index"), "self.candles", "membership")
+    check_resume("C14", res, repo.method("hexital.core.indicator", "Indicator", "_find_calc_index"), "self.candles", "membership", repo=repo)
     check_calculate_index("C14", res, repo)
     check_rebind("C14", res, repo)
     from ..driver import check_append_order
